@@ -1,9 +1,11 @@
 // ===================================================================================
-// U13 harness (hand written), appended to the sliced `calculate_named_arg_order`.
-// Exhaustive native enumeration of the bounded domain (arity <= 3, <= 4 call arguments):
-// CBMC needs > 6 GB for ONE concrete (arity, length) pair of this function (std iterator
-// adaptors `iter().flatten().cloned().collect()` + Vec allocation), so the compiled slice
-// is executed on every input of the domain instead, with panics caught.
+// U13 harness (hand written), appended to the sliced `calculate_func_call_order`,
+// `calculate_named_arg_order`, `resolve_identifier`, `resolve_symbol` and `SymbolTable` text.
+// Exhaustive native enumeration of the bounded domain (arity <= 3, every subset of defaults,
+// <= 4 call arguments, each positional or named with a, b, c or zz).  CBMC needs > 6 GB for ONE
+// concrete (arity, length) pair of calculate_named_arg_order (std iterator adaptors
+// `iter().flatten().cloned().collect()` + Vec allocation), so the compiled slice is executed on
+// every input of the domain instead, with panics caught.
 // ===================================================================================
 
 pub mod u13 {
@@ -22,27 +24,36 @@ pub mod u13 {
         pub choice: [u8; MAXC],
     }
 
-    pub const ARG_ID: u32 = 10; // call argument j carries Expr id 10 + j
-    pub const DEFAULT_ID: u32 = 100; // default value of parameter i carries Expr id 100 + i
+    pub const ARG_ID: u32 = 10; // value of call argument j is the Expr with id 10 + j
+    pub const DEFAULT_ID: u32 = 100; // default value of parameter i is the Expr with id 100 + i
+    pub const PARAM_ID: u32 = 200; // identifier node of parameter i in the definition
+    pub const ARGNAME_ID: u32 = 300; // identifier node of the name of call argument j
+    pub const FUNC_NODE: u32 = 1; // the callee expression node
+    pub const FUNCAP_NODE: u32 = 2; // the call expression node
+    pub const KEY: u32 = 7; // opaque FuncArgDetailsKey of the callee
 
     /// FuncArgDetails as resolve.rs `update_function_arg_info` builds it for a parameter list
-    /// (name_i, default_i?) with distinct names: arg_indices = names in order, default_args =
-    /// {i -> default_i}, nargs = #required + #default.  (__init__.py checks on every run that
-    /// update_function_arg_info still contains these three statements.)
+    /// (name_i, default_i?) with distinct names: a fresh `SymbolTable::empty()` extended with one
+    /// `Declaration::Var` per parameter, arg_indices = names in order, default_args = {i -> default_i},
+    /// required_args = names without default, nargs = #required + #default.  (__init__.py checks on every
+    /// run that update_function_arg_info still consists of these statements.)
     pub fn details(s: &Shape) -> FuncArgDetails {
         let mut arg_indices = IdSet::new();
+        let symbol_table = SymbolTable::empty();
+        let mut required_args: HashSet<String> = HashSet::default();
         let mut default_args: HashMap<usize, Rc<Expr>> = HashMap::default();
-        let mut nrequired = 0usize;
         for i in 0..s.np {
-            arg_indices.insert(NAMES[i].to_string());
+            let name = Rc::new(Identifier { v: NAMES[i].to_string(), id: NodeId { id: PARAM_ID + i as u32 } });
+            symbol_table.extend_declaration(name.v.clone(), Declaration::Var(name.node()));
+            arg_indices.insert(name.v.clone());
             if s.has_default[i] {
-                default_args.insert(i, Rc::new(Expr { id: DEFAULT_ID + i as u32 }));
+                default_args.insert(i, Rc::new(Expr { id: NodeId { id: DEFAULT_ID + i as u32 } }));
             } else {
-                nrequired += 1;
+                required_args.insert(name.v.clone());
             }
         }
-        let nargs = nrequired + default_args.len();
-        FuncArgDetails { arg_indices, default_args, nargs }
+        let nargs = required_args.len() + default_args.len();
+        FuncArgDetails { symbol_table, arg_indices, required_args, default_args, nargs }
     }
 
     pub fn call_args(s: &Shape) -> Vec<FuncCallArg> {
@@ -51,50 +62,93 @@ pub mod u13 {
             let name = if s.choice[j] == 0 {
                 None
             } else {
-                Some(Rc::new(Identifier { v: NAMES[(s.choice[j] - 1) as usize].to_string() }))
+                Some(Rc::new(Identifier {
+                    v: NAMES[(s.choice[j] - 1) as usize].to_string(),
+                    id: NodeId { id: ARGNAME_ID + j as u32 },
+                }))
             };
-            v.push(FuncCallArg { name, val: Rc::new(Expr { id: ARG_ID + j as u32 }) });
+            v.push(FuncCallArg { name, val: Rc::new(Expr { id: NodeId { id: ARG_ID + j as u32 } }) });
         }
         v
     }
 
-    /// The property's notion of a well-formed call (C18): no unknown name, no duplicate, no
-    /// missing required argument, no positional after named, and not more positional arguments
-    /// than parameters.  -> Some(expected Expr id per parameter) when well-formed.
-    pub fn expected(s: &Shape, canary: bool) -> Option<Vec<u32>> {
+    // ------------------------------------------------------------------------------------
+    // SPECIFICATION, written from the sentence of C18 (not from the code):
+    //   "misuse (unknown, duplicate or missing arguments, or positional after named) is rejected
+    //    with a diagnostic"; a well-formed call "behaves exactly like the positional call with the
+    //    omitted parameters filled in with their defaults".
+    // A positional argument in position j stands for parameter j (that is what "positional" means).
+    // ------------------------------------------------------------------------------------
+    #[derive(Clone, Copy, Debug, Default, PartialEq)]
+    pub struct Misuse {
+        pub unknown: bool,          // a name that is not a parameter
+        pub duplicate: bool,        // one parameter supplied twice (named+named or positional+named)
+        pub missing: bool,          // a parameter without default supplied neither positionally nor by name
+        pub pos_after_named: bool,  // a positional argument after a named one
+        pub excess_positional: bool, // NOT in the property's list: more positional arguments than parameters
+    }
+    impl Misuse {
+        pub fn listed(&self) -> bool {
+            self.unknown || self.duplicate || self.missing || self.pos_after_named
+        }
+    }
+
+    pub fn classify(s: &Shape) -> Misuse {
+        let mut m = Misuse::default();
         let mut supplied = [0u8; MAXP];
-        let mut exp = [0u32; MAXP];
         let mut named_seen = false;
         for j in 0..s.nc {
             let c = s.choice[j] as usize;
-            let idx = if c == 0 {
+            if c == 0 {
                 if named_seen {
-                    return None; // positional after named
+                    m.pos_after_named = true;
                 }
-                j // positional argument j is parameter j
+                if j < s.np {
+                    supplied[j] += 1;
+                } else {
+                    m.excess_positional = true;
+                }
             } else {
                 named_seen = true;
-                c - 1
-            };
-            if idx >= s.np {
-                return None; // unknown name ("zz" or a name beyond the arity) / too many positional arguments
+                if c - 1 < s.np {
+                    supplied[c - 1] += 1;
+                } else {
+                    m.unknown = true;
+                }
             }
-            supplied[idx] += 1;
-            exp[idx] = ARG_ID + j as u32;
         }
         for i in 0..s.np {
             if supplied[i] > 1 {
-                return None; // duplicate
+                m.duplicate = true;
             }
-            if supplied[i] == 0 {
-                if !s.has_default[i] {
-                    return None; // missing required argument
-                }
+            if supplied[i] == 0 && !s.has_default[i] {
+                m.missing = true;
+            }
+        }
+        m
+    }
+
+    /// the positional call with defaults filled in (Expr ids), for a well-formed call
+    pub fn expected(s: &Shape, canary: bool) -> Option<Vec<u32>> {
+        let m = classify(s);
+        if m.listed() || m.excess_positional {
+            return None;
+        }
+        let mut exp = vec![0u32; s.np];
+        let mut given = [false; MAXP];
+        for j in 0..s.nc {
+            let c = s.choice[j] as usize;
+            let idx = if c == 0 { j } else { c - 1 };
+            exp[idx] = ARG_ID + j as u32;
+            given[idx] = true;
+        }
+        for i in 0..s.np {
+            if !given[i] {
                 // canary: a deliberately wrong specification (defaults shifted by one parameter)
                 exp[i] = DEFAULT_ID + i as u32 + if canary { 1 } else { 0 };
             }
         }
-        Some(exp[..s.np].to_vec())
+        Some(exp)
     }
 
     pub fn show(s: &Shape) -> String {
@@ -107,20 +161,66 @@ pub mod u13 {
                 s.has_default[2] as u8, s.nc, s.choice[0], s.choice[1], s.choice[2], s.choice[3], params.join(", "), args.join(", "))
     }
 
-    /// Ok(result ids) or Err(panic message)
+    fn panic_text(p: Box<dyn std::any::Any + Send>) -> String {
+        if let Some(m) = p.downcast_ref::<&str>() {
+            m.to_string()
+        } else if let Some(m) = p.downcast_ref::<String>() {
+            m.clone()
+        } else {
+            "panic".to_string()
+        }
+    }
+
+    /// calculate_named_arg_order alone: Ok(result ids) or Err(panic message)
     pub fn run_shape(s: &Shape) -> Result<Vec<u32>, String> {
         let d = details(s);
         let args = call_args(s);
         let r = std::panic::catch_unwind(std::panic::AssertUnwindSafe(|| calculate_named_arg_order(&d, &args)));
         match r {
-            Ok(v) => Ok(v.iter().map(|e| e.id).collect()),
-            Err(p) => Err(if let Some(m) = p.downcast_ref::<&str>() {
-                m.to_string()
-            } else if let Some(m) = p.downcast_ref::<String>() {
-                m.clone()
-            } else {
-                "panic".to_string()
-            }),
+            Ok(v) => Ok(v.iter().map(|e| e.id.id).collect()),
+            Err(p) => Err(panic_text(p)),
+        }
+    }
+
+    pub struct CallOutcome {
+        pub errors: Vec<String>,
+        pub order: Option<Vec<u32>>,
+    }
+
+    /// the caller: calculate_func_call_order on a context that resolves the callee to its definition
+    pub fn run_call(s: &Shape) -> Result<CallOutcome, String> {
+        let args = call_args(s);
+        let mut ctx = StaticsContext {
+            resolution_map: HashMap::default(),
+            func_arg_details: HashMap::default(),
+            function_call_arg_order: HashMap::default(),
+            errors: Vec::new(),
+        };
+        ctx.resolution_map.insert(NodeId { id: FUNC_NODE }, Declaration::Function(FuncArgDetailsKey(KEY)));
+        ctx.func_arg_details.insert(FuncArgDetailsKey(KEY), details(s));
+        let func_node = AstNode::Other(NodeId { id: FUNC_NODE });
+        let funcap_node = AstNode::Other(NodeId { id: FUNCAP_NODE });
+        let r = std::panic::catch_unwind(std::panic::AssertUnwindSafe(|| {
+            calculate_func_call_order(&mut ctx, func_node, &args, funcap_node);
+        }));
+        if let Err(p) = r {
+            return Err(panic_text(p));
+        }
+        let errors = ctx
+            .errors
+            .iter()
+            .map(|e| match e {
+                Error::GenericWithNode { msg, .. } => msg.clone(),
+                Error::UnresolvedIdentifier { .. } => "unresolved identifier".to_string(),
+            })
+            .collect();
+        let order = ctx.function_call_arg_order.get(&NodeId { id: FUNCAP_NODE }).map(|v| v.iter().map(|e| e.id.id).collect());
+        Ok(CallOutcome { errors, order })
+    }
+
+    fn push(v: &mut Vec<String>, s: String) {
+        if v.len() < 8 {
+            v.push(s);
         }
     }
 
@@ -131,7 +231,9 @@ pub mod u13 {
             let a: Vec<u64> = args[1..].iter().map(|x| x.parse().unwrap()).collect();
             let s = Shape { np: a[0] as usize, has_default: [a[1] != 0, a[2] != 0, a[3] != 0], nc: a[4] as usize,
                             choice: [a[5] as u8, a[6] as u8, a[7] as u8, a[8] as u8] };
-            println!("{} -> {:?} expected {:?}", show(&s), run_shape(&s), expected(&s, false));
+            let c = run_call(&s);
+            println!("{}\n  callee -> {:?}\n  caller -> errors {:?} order {:?}\n  spec   -> {:?} expected {:?}", show(&s), run_shape(&s),
+                     c.as_ref().map(|o| o.errors.clone()), c.as_ref().map(|o| o.order.clone()), classify(&s), expected(&s, false));
             return;
         }
         let canary = args.get(1).map(|a| a == "canary").unwrap_or(false);
@@ -141,11 +243,21 @@ pub mod u13 {
                 *LAST_LOC.lock().unwrap() = format!("{}:{}", l.file(), l.line());
             }
         }));
+        // callee (existing obligations)
         let (mut shapes, mut wellformed, mut illformed) = (0u64, 0u64, 0u64);
         let (mut npanic, mut nmismatch, mut nlong) = (0u64, 0u64, 0u64);
         let (mut all_named_reordered, mut defaults_fill_two, mut more_args_than_params) = (0u64, 0u64, 0u64);
         let mut panics: Vec<String> = vec![];
         let mut mismatches: Vec<String> = vec![];
+        // caller (new obligations)
+        let (mut in_domain, mut misuse_shapes, mut valid_shapes) = (0u64, 0u64, 0u64);
+        let (mut k_unknown, mut k_dup_named, mut k_dup_pos_named, mut k_missing, mut k_pos_after) = (0u64, 0u64, 0u64, 0u64, 0u64);
+        let (mut n_accepted_misuse, mut n_rejected_valid, mut n_caller_panic) = (0u64, 0u64, 0u64);
+        let mut misuse_bad: Vec<String> = vec![];
+        let (mut n_order_undefined, mut n_order_wrong, mut n_order_incomplete, mut orders_recorded) = (0u64, 0u64, 0u64, 0u64);
+        let mut order_bad: Vec<String> = vec![];
+        let (mut excess_only, mut excess_only_no_diag) = (0u64, 0u64);
+        let mut excess_examples: Vec<String> = vec![];
         for np in 0..=MAXP {
             for dmask in 0..(1u32 << np) {
                 let has_default = [dmask & 1 != 0, dmask & 2 != 0, dmask & 4 != 0];
@@ -163,24 +275,97 @@ pub mod u13 {
                         let exp = expected(&s, canary);
                         if exp.is_some() { wellformed += 1 } else { illformed += 1 }
                         if nc > np { more_args_than_params += 1 }
+                        // ---- callee alone
                         match run_shape(&s) {
                             Err(msg) => {
                                 npanic += 1;
-                                if panics.len() < 8 {
-                                    panics.push(format!("{} :: panic `{}` at {}", show(&s), msg, LAST_LOC.lock().unwrap()));
-                                }
+                                push(&mut panics, format!("{} :: panic `{}` at {}", show(&s), msg, LAST_LOC.lock().unwrap()));
                             }
                             Ok(got) => {
                                 if got.len() > np {
                                     nlong += 1;
                                 }
-                                if let Some(e) = exp {
+                                if let Some(e) = &exp {
                                     if np == 3 && nc == 3 && choice[0] == 3 && choice[1] == 1 { all_named_reordered += 1 }
                                     if np == 3 && nc == 1 && has_default[1] && has_default[2] { defaults_fill_two += 1 }
-                                    if got != e {
+                                    if &got != e {
                                         nmismatch += 1;
-                                        if mismatches.len() < 8 {
-                                            mismatches.push(format!("{} :: got {:?} expected {:?}", show(&s), got, e));
+                                        push(&mut mismatches, format!("{} :: got {:?} expected {:?}", show(&s), got, e));
+                                    }
+                                }
+                            }
+                        }
+                        // ---- caller
+                        let m = classify(&s);
+                        let out = run_call(&s);
+                        if m.excess_positional {
+                            // outside the obligation's domain; recorded as an observation only
+                            if !m.listed() {
+                                excess_only += 1;
+                                if let Ok(o) = &out {
+                                    if o.errors.is_empty() {
+                                        excess_only_no_diag += 1;
+                                        if excess_examples.len() < 3 {
+                                            excess_examples.push(format!("{} :: no diagnostic, recorded order {:?}", show(&s), o.order));
+                                        }
+                                    }
+                                }
+                            }
+                            continue;
+                        }
+                        in_domain += 1;
+                        let misuse = m.listed() != canary; // canary: negated specification
+                        if m.listed() {
+                            misuse_shapes += 1;
+                            if m.unknown { k_unknown += 1 }
+                            if m.missing { k_missing += 1 }
+                            if m.pos_after_named { k_pos_after += 1 }
+                            if m.duplicate {
+                                // positional+named duplicate: some named argument names a parameter also given positionally
+                                let mut pos_named = false;
+                                let npos = (0..nc).take_while(|j| choice[*j] == 0).count();
+                                for j in 0..nc {
+                                    if choice[j] != 0 && ((choice[j] - 1) as usize) < npos.min(np) { pos_named = true }
+                                }
+                                if pos_named { k_dup_pos_named += 1 } else { k_dup_named += 1 }
+                            }
+                        } else {
+                            valid_shapes += 1;
+                        }
+                        match out {
+                            Err(msg) => {
+                                n_caller_panic += 1;
+                                push(&mut misuse_bad, format!("{} :: PANIC `{}` at {} (spec: {:?})", show(&s), msg, LAST_LOC.lock().unwrap(), m));
+                            }
+                            Ok(o) => {
+                                if misuse && o.errors.is_empty() {
+                                    n_accepted_misuse += 1;
+                                    push(&mut misuse_bad, format!("{} :: MISUSE ACCEPTED, no diagnostic (spec: {:?}); recorded order {:?}", show(&s), m, o.order));
+                                }
+                                if !misuse && !o.errors.is_empty() {
+                                    n_rejected_valid += 1;
+                                    push(&mut misuse_bad, format!("{} :: VALID CALL REJECTED: {:?}", show(&s), o.errors));
+                                }
+                                if let Some(ord) = &o.order {
+                                    orders_recorded += 1;
+                                    if ord.len() != np {
+                                        n_order_incomplete += 1;
+                                        push(&mut order_bad, format!("{} :: INCOMPLETE ORDER {:?} recorded for {} parameters (diagnostics {:?})", show(&s), ord, np, o.errors));
+                                    }
+                                }
+                                if o.errors.is_empty() {
+                                    if let Some(e) = &exp {
+                                        match &o.order {
+                                            None => {
+                                                n_order_undefined += 1;
+                                                push(&mut order_bad, format!("{} :: NO ORDER RECORDED for a well-formed call", show(&s)));
+                                            }
+                                            Some(ord) => {
+                                                if ord != e {
+                                                    n_order_wrong += 1;
+                                                    push(&mut order_bad, format!("{} :: WRONG ORDER {:?} expected {:?}", show(&s), ord, e));
+                                                }
+                                            }
                                         }
                                     }
                                 }
@@ -192,9 +377,15 @@ pub mod u13 {
         }
         let q = |v: &Vec<String>| v.iter().map(|m| format!("{:?}", m)).collect::<Vec<_>>().join(",");
         println!(
-            "{{\"shapes\":{},\"wellformed\":{},\"illformed\":{},\"npanic\":{},\"nmismatch\":{},\"nlong\":{},\"cover_all_named_reordered\":{},\"cover_defaults_fill_two\":{},\"cover_more_args_than_params\":{},\"panics\":[{}],\"mismatches\":[{}]}}",
+            "{{\"shapes\":{},\"wellformed\":{},\"illformed\":{},\"npanic\":{},\"nmismatch\":{},\"nlong\":{},\"cover_all_named_reordered\":{},\"cover_defaults_fill_two\":{},\"cover_more_args_than_params\":{},\"panics\":[{}],\"mismatches\":[{}],\
+\"caller\":{{\"in_domain\":{},\"misuse_shapes\":{},\"valid_shapes\":{},\"cover_unknown\":{},\"cover_duplicate_named_named\":{},\"cover_duplicate_positional_named\":{},\"cover_missing\":{},\"cover_positional_after_named\":{},\
+\"n_accepted_misuse\":{},\"n_rejected_valid\":{},\"n_panic\":{},\"misuse_bad\":[{}],\"orders_recorded\":{},\"n_order_undefined\":{},\"n_order_wrong\":{},\"n_order_incomplete\":{},\"order_bad\":[{}],\
+\"excess_positional_only\":{},\"excess_positional_only_without_diagnostic\":{},\"excess_examples\":[{}]}}}}",
             shapes, wellformed, illformed, npanic, nmismatch, nlong, all_named_reordered, defaults_fill_two, more_args_than_params,
-            q(&panics), q(&mismatches)
+            q(&panics), q(&mismatches),
+            in_domain, misuse_shapes, valid_shapes, k_unknown, k_dup_named, k_dup_pos_named, k_missing, k_pos_after,
+            n_accepted_misuse, n_rejected_valid, n_caller_panic, q(&misuse_bad), orders_recorded, n_order_undefined, n_order_wrong,
+            n_order_incomplete, q(&order_bad), excess_only, excess_only_no_diag, q(&excess_examples)
         );
     }
 }
